@@ -48,6 +48,12 @@ var mappingBearing = map[string]bool{"ReadMapping": true, "ReadRouterAddress": t
 
 // the C01 oracle: Bytes(parse x) ++ remainder == x
 func c01Oracle(c *Ctx, p *Parser, input []byte, extra [][]byte, res Parsed) {
+	if res.SerErr != "" {
+		// accepted without error, yet the returned value has no serialisation at all
+		c.Check("reserialise_equals_consumed", false, p.Name, append([][]byte{input}, extra...), "",
+			"the reader accepted the input but the value it returned cannot be serialised: "+res.SerErr)
+		return
+	}
 	if !res.OK {
 		return
 	}
